@@ -22,6 +22,8 @@ BIDS = ["b0", "b1", "x"]
 FORMS = [".nml", ".xml", ".nml.h5", ".h5", ".hdf5"]
 PARSER_FORMS = (".nml", ".xml", ".nml.h5")
 # how a cell object comes into being: bare object + attribute assignment, constructor keywords, component_factory, add
+# (component_factory / add run Cell.setup_nml_cell() on a plain Cell, which gives it a morphology and biophysics of its own -
+# such a cell never refers to anything; so those two ways are used for Cell2CaPools only)
 HOWS = ["assign", "ctor", "factory", "add", "add_name"]  # ... and those the include loop of _read_neuroml2 accepts (NeuroMLXMLParser path)
 
 
@@ -53,7 +55,7 @@ class Gen:
         for i in range(r.randint(0, 5)):
             self.v += 1
             cells.append({"list": "cells", "id": "c%d" % i, "rest": self.v, "m": self.slot(MIDS, dangling),
-                          "b": self.slot(BIDS, dangling), "how": r.choice(HOWS)})
+                          "b": self.slot(BIDS, dangling), "how": r.choice(HOWS[:2])})
         for i in range(r.randint(0, 2) if r.random() < 0.5 else 0):
             self.v += 1
             cells.append({"list": "cells2", "id": "k%d" % i, "rest": self.v, "m": self.slot(MIDS, dangling),
@@ -176,6 +178,8 @@ def fixed_cases():
     cs = []
     for hi, how in enumerate(HOWS):
         for li, lst in enumerate(("cells", "cells2")):
+            if lst == "cells" and how not in HOWS[:2]:
+                continue
             for vi, (ma, ba) in enumerate((("m0", "b0"), ("m0", None), (None, "b0"))):
                 cs.append({"list": lst, "id": "%s%d%d" % ("c" if li == 0 else "k", hi, vi), "rest": 200 + 10 * hi + 3 * li + vi,
                            "m": {"attr": ma, "emb": None}, "b": {"attr": ba, "emb": None}, "how": how})
